@@ -17,6 +17,7 @@ mod physical_keyboard_layouts { include!(concat!(env!("VERIF_REPO_SRC"), "/physi
 mod fancy_layout_interpreting { include!(concat!(env!("VERIF_REPO_SRC"), "/fancy_layout_interpreting.rs")); }
 mod layout_parsing_formatting { include!(concat!(env!("VERIF_REPO_SRC"), "/layout_parsing_formatting.rs")); }
 
+mod layout_loading { include!(concat!(env!("VERIF_REPO_SRC"), "/layout_loading.rs")); }
 mod loader_probe { include!("loader_probe.rs"); }
 mod tables_probe { include!("tables_probe.rs"); }
 mod struct_ser { include!(concat!(env!("VERIF_REPO_SRC"), "/struct_ser.rs")); }
@@ -65,6 +66,8 @@ fn main() {
     "realdriver" => { let seed: u64 = args[2].parse().unwrap(); let cases: u64 = args[3].parse().unwrap(); std::process::exit(remapping_loop::real_driver(seed, cases)); },
     "realdriver1" => { let n: u64 = args[2].parse().unwrap(); std::process::exit(remapping_loop::real_driver_one(n)); },
     "tables" => { std::process::exit(tables_probe::tables()); },
+    "loaderfuzz" => { let n: u64 = args[2].parse().unwrap(); let seed: u64 = args[3].parse().unwrap(); std::process::exit(loader_probe::loader_fuzz_bounded(n, seed)); },
+    "fresh" => { let n: u64 = args[2].parse().unwrap(); let seed: u64 = args[3].parse().unwrap(); std::process::exit(key_transforms::fresh_bounded(n, seed)); },
     "programs" => { let n: u64 = args[2].parse().unwrap(); let seed: u64 = args[3].parse().unwrap(); std::process::exit(loader_probe::programs_bounded(n, seed)); },
     "anymod" => { std::process::exit(key_transforms::anymod()); },
     "c18" => {
